@@ -1016,3 +1016,130 @@ theorem fileOpen_eq (file : List UInt8) (start : Nat) :
     rw [hd]
 
 end Tw.Datafile
+
+namespace Tw.Datafile
+
+/-! ### callbacks that fail -/
+
+/-- with callbacks that never fail, `newCb` is `new` -/
+theorem newCb_never (bytes : List UInt8) : Reader.newCb bytes (fun _ => false) = Reader.new bytes := by
+  unfold Reader.newCb Reader.new
+  simp
+
+/-- a failing callback can only turn the result into the callback's error -/
+theorem newCb_cases (bytes : List UInt8) (fails : Nat → Bool) :
+    Reader.newCb bytes fails = Reader.new bytes ∨ Reader.newCb bytes fails = .err .callback := by
+  unfold Reader.newCb Reader.new
+  by_cases h0 : fails 0 = true
+  · right; rw [if_pos h0]
+  · rw [if_neg h0]
+    split
+    · left; rfl
+    · left; rfl
+    · rename_i h hread
+      split
+      · left; rfl
+      · left; rfl
+      · rename_i hc hcheck
+        split
+        · left; rfl
+        · simp only
+          by_cases h1 : fails 1 = true
+          · right; rw [if_pos h1]
+          · rw [if_neg h1]
+            split
+            · left; rfl
+            · by_cases h2 : fails 2 = true
+              · right; rw [if_pos h2]
+              · rw [if_neg h2]
+                split
+                · left; rfl
+                · by_cases h3 : fails 3 = true
+                  · right; rw [if_pos h3]
+                  · rw [if_neg h3]
+                    split
+                    · left; rfl
+                    · generalize (if h.version = 3 then Version.v3 else if hc.crude = true then Version.v4crude
+                        else Version.v4) = ver
+                      by_cases h4 : (ver.hasCompressedData && fails 4) = true
+                      · right; rw [if_pos h4]
+                      · rw [if_neg h4]
+                        split
+                        · left; rfl
+                        · by_cases hal : asUsize h.sizeItems % 4 ≠ 0
+                          · left; rw [if_pos hal, if_pos hal]
+                          · rw [if_neg hal, if_neg hal]
+                            by_cases h5 : fails (if ver.hasCompressedData = true then 5 else 4) = true
+                            · right; rw [if_pos h5]
+                            · rw [if_neg h5]
+                              split
+                              · left; rfl
+                              · by_cases h6 : fails ((if ver.hasCompressedData = true then 5 else 4) + 1) = true
+                                · right; rw [if_pos h6]
+                                · rw [if_neg h6]
+                                  by_cases h7 : fails ((if ver.hasCompressedData = true then 5 else 4) + 2) = true
+                                  · right; rw [if_pos h7]
+                                  · rw [if_neg h7]; left; rfl
+
+theorem newCb_never_panics (bytes : List UInt8) (fails : Nat → Bool) (s : String) :
+    Reader.newCb bytes fails ≠ .panic s := by
+  rcases newCb_cases bytes fails with h | h
+  · rw [h]
+    rcases new_spec bytes with ⟨e, he⟩ | ⟨r, hr, _⟩
+    · rw [he]; simp
+    · rw [hr]; simp
+  · rw [h]; simp
+
+/-- `read_data` with failing callbacks: the same result or the callback's error -/
+theorem readDataCb_cases (r : Reader) (inflate : Nat → List UInt8 → Option (List UInt8)) (index : Nat)
+    (failSeek failAlloc : Bool) :
+    r.readDataCb inflate index failSeek failAlloc = r.readData inflate index
+      ∨ r.readDataCb inflate index failSeek failAlloc = .err .callback := by
+  unfold Reader.readDataCb Reader.readData
+  cases failSeek <;> cases failAlloc <;> simp <;>
+    (repeat' split) <;> simp_all
+
+theorem readDataCb_never (r : Reader) (inflate : Nat → List UInt8 → Option (List UInt8)) (index : Nat) :
+    r.readDataCb inflate index false false = r.readData inflate index := by
+  unfold Reader.readDataCb Reader.readData
+  simp
+
+end Tw.Datafile
+
+namespace Tw.Datafile
+
+theorem firstFailure_no_panic : ∀ (l : List (Outcome Unit)), (∀ o ∈ l, ∀ s, o ≠ .panic s) →
+    ∀ s, firstFailure l ≠ .panic s
+  | [], _, s => by simp [firstFailure]
+  | .ok () :: rest, h, s => by
+    simp only [firstFailure]
+    exact firstFailure_no_panic rest (fun o ho => h o (List.mem_cons_of_mem _ ho)) s
+  | .err e :: _, _, s => by simp [firstFailure]
+  | .panic s' :: _, h, s => absurd rfl (h _ (List.mem_cons_self ..) s')
+
+/-- `debug_dump` on an accepted file never panics (for a zlib that honours its contract) -/
+theorem debugDump_no_panic {r : Reader} (inv : Inv r) (inflate : Nat → List UInt8 → Option (List UInt8))
+    (hz : ∀ n src out, inflate n src = some out → out.length ≤ n) (s : String) :
+    r.debugDump inflate ≠ .panic s := by
+  unfold Reader.debugDump
+  apply firstFailure_no_panic
+  intro o ho s'
+  rcases List.mem_append.1 ho with h | h
+  · simp only [List.mem_flatMap, List.mem_range] at h
+    obtain ⟨i, hi, ho⟩ := h
+    obtain ⟨t, ht, _⟩ := itemType_ok inv hi
+    rw [ht] at ho
+    simp only at ho
+    obtain ⟨a, b, hab, _, hb⟩ := itemTypeIndices_ok inv t
+    rw [hab] at ho
+    simp only [List.mem_map, List.mem_range] at ho
+    obtain ⟨j, hj, rfl⟩ := ho
+    obtain ⟨v, hv, _⟩ := item_ok inv (k := a + j) (by omega)
+    rw [hv]; simp [Outcome.void]
+  · simp only [List.mem_map, List.mem_range] at h
+    obtain ⟨i, hi, rfl⟩ := h
+    rcases readData_ok inv inflate hz hi with ⟨e, he⟩ | ⟨out, ho', _⟩
+    · rw [he]; simp [Outcome.void]
+    · rw [ho']; simp [Outcome.void]
+
+end Tw.Datafile
